@@ -13,7 +13,7 @@ Rules (DESIGN.md section 3, C10):
 """
 from cao.facts import (AnchorMissing, hir_walk, hir_callee, hir_strip, hir_children, hir_local_id, hir_def_path,
                        block_exprs, pat_variants, short, callee_names, callee_is, op_local, op_place, DefUse)
-from cao.rules import Rule, ok, bad, undecided, note
+from cao.rules import Rule, ok, bad, undecided, note, shared
 from cao import hirutil as hu
 from cao import mirutil as mu
 
@@ -1027,10 +1027,16 @@ def rule_s(F):
     return res
 
 
+def _c06_rule_w(F):
+    import rules.c06 as c06
+    return c06.rule_w(F)
+
+
 RULES = [
     Rule("C10.W", rule_w, 150, "operand-width agreement emitter/span/decoder/disassembler per instruction"),
     Rule("C10.T", rule_t, 3, "every failing instruction has a trace entry; trace key is the opcode position"),
     Rule("C10.J", rule_j, 6, "jump operands are placeholders that get patched, or derive from bytecode.len()"),
     Rule("C10.E", rule_e, 2, "terminal Exit on every Ok path of Compiler::compile"),
+    Rule("C10.U", shared(_c06_rule_w, "C06.W", "C10.U"), 2, "upvalue operands index the closure's own upvalue list (shared with C06.W)"),
     Rule("C10.S", rule_s, 6, "data-section string encoding and handles"),
 ]
